@@ -241,6 +241,8 @@ func isFreshBase(v ssa.Value, depth int) bool {
 		return isFreshBase(a.X, depth+1)
 	case *ssa.Slice:
 		return isFreshBase(a.X, depth+1)
+	case *ssa.IndexAddr:
+		return isFreshBase(a.X, depth+1)
 	case *ssa.ChangeType:
 		return isFreshBase(a.X, depth+1)
 	}
